@@ -31,6 +31,7 @@ MInit == [
     open   |-> {},
     lastb  |-> 0,         \* the previously started batch
     curmax |-> 256, maxseen |-> 256, capmin |-> 256,
+    maxlog |-> <<>>,      \* every value of max_batch_size with the time from which it is in force
     busyFrom |-> -1, busyPrev |-> -1, freedAt |-> -1,
     anyCancel |-> FALSE,
     fuzzy  |-> FALSE,     \* an arrival coincided with a retention / batch timer edge: order not judged
@@ -48,9 +49,12 @@ Joins(m, e) ==
     /\ LET r == m.reqs[m.curreq[e.key]] IN
          \/ r.state = "pending"
          \/ r.state = "done" /\ e.t < r.tdone + m.rt
+\* an arrival exactly at the edge of the window is not judged - except that with retention 0 a call made
+\* after a caller of the request has already been answered is certainly "after" (program order)
 EdgeTie(m, e) ==
     /\ e.key \in DOMAIN m.curreq
-    /\ LET r == m.reqs[m.curreq[e.key]] IN r.state = "done" /\ e.t = r.tdone + m.rt
+    /\ LET r == m.reqs[m.curreq[e.key]] IN
+         r.state = "done" /\ e.t = r.tdone + m.rt /\ ~(m.rt = 0 /\ r.answered)
 
 Complete(m, rs, t) ==
     [m EXCEPT !.reqs = [r \in DOMAIN @ |-> IF r \in rs /\ @[r].state = "pending"
@@ -67,7 +71,7 @@ OnCall(m, e, idx) ==
          IN [m EXCEPT !.call = Put(@, e.i, [key |-> e.key, t |-> e.t, tmo |-> e.tmo, req |-> r, cancelled |-> FALSE]),
                       !.pendc = @ \cup {e.i},
                       !.reqs = Put(@, r, [key |-> e.key, owner |-> e.i, t |-> e.t, batch |-> 0,
-                                          state |-> "pending", tdone |-> 0]),
+                                          state |-> "pending", tdone |-> 0, answered |-> FALSE]),
                       !.curreq = Put(@, e.key, r),
                       !.fifo = Append(@, r),
                       !.nreq = r,
@@ -78,7 +82,27 @@ OnBatchStart(m, e, idx) ==
         exp == Prefix(m.fifo, n)
         expKeys == KeysOf(m, exp)
         fifoKeys == KeysOf(m, m.fifo)
-        b0 == IF n < 1 \/ n > m.maxseen THEN Flag(m.bad, "C10", "C10_Size", idx) ELSE m.bad
+        \* C10_Size: the values of max_batch_size that were in force while the items of this batch arrived
+        \* (assembly may precede the start when all slots are busy, so the arrival interval is what counts)
+        a1 == IF n > 0 /\ Len(exp) >= n THEN m.reqs[exp[1]].t ELSE e.t
+        an == IF n > 0 /\ Len(exp) >= n THEN m.reqs[exp[n]].t ELSE e.t
+        inner == {k \in 1..Len(m.maxlog) : m.maxlog[k][1] > a1 /\ m.maxlog[k][1] <= an}
+        before == {k \in 1..Len(m.maxlog) : m.maxlog[k][1] <= a1}
+        atStart == IF before = {} THEN m.maxb ELSE m.maxlog[CHOOSE k \in before : \A j \in before : j <= k][2]
+        widest == IF inner = {} THEN atStart
+                  ELSE LET vals == {m.maxlog[k][2] : k \in inner} \cup {atStart}
+                       IN CHOOSE v \in vals : \A w \in vals : w <= v
+        lowest == IF inner = {} THEN atStart
+                  ELSE LET vals == {m.maxlog[k][2] : k \in inner} \cup {atStart}
+                       IN CHOOSE v \in vals : \A w \in vals : v <= w
+        \* lowered while the batch was being filled: items that joined afterwards are bound by the new value
+        \* (+1: a q.get() already being awaited when the value changed may still deliver its item; the
+        \*  statement does not say which value applies to a batch under assembly, so that is not judged)
+        lastIn == IF inner = {} THEN 0 ELSE CHOOSE k \in inner : \A j \in inner : j <= k
+        joinedBefore == IF lastIn = 0 THEN n
+                        ELSE Cardinality({j \in 1..n : m.reqs[exp[j]].t <= m.maxlog[lastIn][1]})
+        bound == IF lastIn = 0 THEN widest ELSE Min(widest, Max(joinedBefore + 1, Max(m.maxlog[lastIn][2], 1)))
+        b0 == IF n < 1 \/ (~m.fuzzy /\ e.items = expKeys /\ n > bound) THEN Flag(m.bad, "C10", "C10_Size", idx) ELSE m.bad
         b1 == IF Cardinality(m.open) + 1 > m.maxc THEN Flag(b0, "C10", "C10_Concurrency", idx) ELSE b0
         dupwork == \E j \in 1..n : Count(e.items, e.items[j]) > Count(fifoKeys, e.items[j])
         b2 == IF m.fuzzy \/ e.items = expKeys THEN b1
@@ -105,7 +129,7 @@ OnBatchStart(m, e, idx) ==
                           ELSE @,
                  !.fuzzy = @ \/ ~ok,
                  !.batch = Put(@, e.b, [items |-> e.items, reqs |-> IF ok THEN exp ELSE <<>>, t |-> e.t,
-                                        how |-> "", first |-> EmptyFn, cap |-> m.capmin]),
+                                        how |-> "", first |-> EmptyFn, cap |-> lowest]),
                  !.open = @ \cup {e.b},
                  !.lastb = e.b,
                  !.maxseen = m.curmax, !.capmin = m.curmax,
@@ -131,7 +155,9 @@ OnCallEnd(m, e, idx) ==
           IF e.kind = "cancel" THEN (IF c.cancelled THEN "" ELSE "ForeignCancel")
           ELSE IF e.kind = "timeout" THEN (IF c.tmo >= 0 /\ e.t >= c.t + c.tmo THEN "" ELSE "ForeignTimeout")
           ELSE IF m.fuzzy THEN ""
-          ELSE IF r.batch = 0 THEN "AnsweredWithoutBatch"
+          ELSE IF r.batch = 0
+               THEN (IF e.kind \in {"val", "exc", "excasval"} /\ tag[2] = c.key THEN "WrongRequest"
+                     ELSE "AnsweredWithoutBatch")
           ELSE LET bb == m.batch[r.batch] IN
                IF c.key \in DOMAIN bb.first
                THEN LET f == bb.first[c.key] IN
@@ -148,14 +174,16 @@ OnCallEnd(m, e, idx) ==
               ELSE IF verdict = "WrongRequest"
                    THEN Flag(Flag(m.bad, p, p \o "_OwnOutcome", idx), "C11", "C11_WrongRequest", idx)
               ELSE Flag(m.bad, p, p \o "_" \o verdict, idx)
-    IN [m EXCEPT !.bad = b1, !.pendc = @ \ {e.i}]
+    IN [m EXCEPT !.bad = b1, !.pendc = @ \ {e.i},
+                 !.reqs = IF e.kind \notin {"cancel", "timeout"} THEN [@ EXCEPT ![c.req].answered = TRUE] ELSE @]
 
 MStep(m, e, idx) ==
   CASE e.e = "Config" -> [m EXCEPT !.maxb = e.maxb, !.maxc = e.maxc, !.bt = e.bt, !.rt = e.rt,
                                    !.curmax = e.maxb, !.maxseen = e.maxb, !.capmin = e.maxb]
     [] e.e = "Call" -> OnCall(m, e, idx)
     [] e.e = "Cancel" -> [m EXCEPT !.call[e.i].cancelled = TRUE, !.anyCancel = TRUE]
-    [] e.e = "SetMax" -> [m EXCEPT !.curmax = e.n, !.maxseen = Max(@, e.n), !.capmin = Min(@, e.n)]
+    [] e.e = "SetMax" -> [m EXCEPT !.curmax = e.n, !.maxseen = Max(@, e.n), !.capmin = Min(@, e.n),
+                                    !.maxlog = Append(@, <<e.t, e.n>>)]
     [] e.e = "BatchStart" -> OnBatchStart(m, e, idx)
     [] e.e = "Yield" ->
         IF e.b \in DOMAIN m.batch /\ e.key \notin DOMAIN m.batch[e.b].first
